@@ -547,6 +547,71 @@ def check_c03(model, rep, tier):
     from .regexes import r_nvra_glue
     r_keys(model, rep)
     r_nvra_glue(model, rep)
+    r_reader_not_stricter(model, rep)
+
+
+def r_reader_not_stricter(model, rep):
+    """what add() files must load again: a refusal the current-version reader makes on a field of a stored record (a payload check
+    added on the read side) must be one add() makes as well, under conditions at least as wide - record['sigkey'] refused for
+    not being a string while add() accepts None is the library rejecting its own output"""
+    V = current_version(model)
+    alias = {"file": "path"}
+    for q in ("rpms.Rpms", "modules.Modules", "extra_files.ExtraFiles"):
+        rf = model.own_method(q, "deserialize")
+        rcx = facts.fctx(model, rf)
+        # the reader the dispatcher selects for the current version
+        for ev in rcx.events:
+            if ev.kind == "call" and ev.value[1][0] == "attr" and rcx.is_self(ev.value[1][1]) and ev.value[1][2].startswith("deserialize_") \
+                    and facts.active_at(ev, V) and model.cls(q).lookup(ev.value[1][2]):
+                rf = model.own_method(q, ev.value[1][2])
+                rcx = facts.fctx(model, rf)
+                break
+        af = model.own_method(q, "add")
+        acx = facts.fctx(model, af)
+        aparams = set(acx.params[1:])
+        IN = P(rcx.params[1])
+
+        def field_atoms(ev, cx_, mapper):
+            out = set()
+            # (conditions of the refusal itself: what merely says "no earlier refusal fired" is not part of it)
+            for a in facts.flat_atoms(g for g in facts.own_guards(cx_, ev, kinds=("raise",)) if g[0][0] != "exc"):
+                t, pol = facts.canon_guard((mapper(a[0]), a[1]))
+                out.add("%s:%s" % (T.show(t), "T" if pol else "F"))
+            return out
+
+        def map_record(t):
+            # <anything rooted at the document>["k"]  ->  the add() parameter of that name
+            def fn(x):
+                if x[0] == "sub" and x[2][0] == "const" and isinstance(x[2][1], str) and T.root_of(x) == IN:
+                    name = alias.get(x[2][1], x[2][1])
+                    if name in aparams:
+                        return ("param", name)
+                return None
+            return T.subst(t, fn)
+        builder = []
+        for ev in acx.events:
+            if ev.kind == "raise":
+                builder.append(field_atoms(ev, acx, lambda t: t))
+        bad = []
+        n = 0
+        for ev in rcx.events:
+            if ev.kind != "raise" or not facts.active_at(ev, V):
+                continue
+            own = [g for g in ev.guards if g[0][0] != "exc" and g[1] and not facts.is_pure_gate(g[0])]
+            if not own:
+                continue
+            leaf = map_record(own[-1][0])
+            if not T.contains(leaf, lambda x: x[0] == "param" and x[1] in aparams) or T.contains(leaf, lambda x: x == IN):
+                continue        # a refusal about the structure of the document, not about a field add() takes
+            n += 1
+            mine = field_atoms(ev, rcx, map_record)
+            # only the atoms that speak about add()'s parameters count on the reader side (the rest is how the reader got there)
+            mine_p = set(a for a in mine if any(("%s" % p_) in a for p_ in aparams))
+            if not any(b and b <= mine_p for b in builder):
+                bad.append("line %s: refused when %s" % (ev.lineno, " and ".join(sorted(mine_p))[:160]))
+        rep.ob("R-PAYLOAD", "%s.deserialize:not-stricter-than-add" % q, not bad, site=rcx.site(rf.node),
+               msg="" if not bad else "the reader refuses a stored record that add() would have filed: %s" % "; ".join(bad[:2]),
+               facts={"reader_refusals_on_record_fields": n}, trivial=(n == 0))
 
 
 # ---------------------------------------------------------------------------------------------------------
